@@ -214,6 +214,22 @@ func main() {
 	bin := filepath.Join(scratch, "mv.test")
 	hdir := filepath.Join(verifRoot, "harness")
 	bargs := []string{"test", "-c", "-o", bin}
+	// VERIF_REPO (sensitivity runs only): build against a scratch copy of the
+	// repository instead of /repo, through a temporary -modfile.
+	if alt := os.Getenv("VERIF_REPO"); alt != "" {
+		gm, err := os.ReadFile(filepath.Join(hdir, "go.mod"))
+		if err != nil {
+			fatal2("go.mod: %v", err)
+		}
+		gm = bytes.Replace(gm, []byte("=> /repo"), []byte("=> "+alt), 1)
+		mf := filepath.Join(scratch, "alt.mod")
+		os.WriteFile(mf, gm, 0644)
+		if gs, err := os.ReadFile(filepath.Join(hdir, "go.sum")); err == nil {
+			os.WriteFile(filepath.Join(scratch, "alt.sum"), gs, 0644)
+		}
+		bargs = append(bargs, "-modfile="+mf)
+		fmt.Printf("note: building against %s instead of /repo\n", alt)
+	}
 	if pc.Race {
 		bargs = append(bargs, "-race")
 	}
